@@ -107,7 +107,7 @@ class ParCons(RankAggAlgorithm, PairwiseBasedAlgorithm):
                 if len(scc_i) > self._bound_for_exact:
                     cons_ext = self._auxiliary_alg.compute_consensus_rankings(
                         sub_problem, scoring_scheme, True).consensus_rankings[0]
-                    res.extend(cons_ext)
+                    res.extend(ParCons.buckets_with_elements_of_dataset(cons_ext, set_current_elements))
                     optimal = False
                 else:
                     # Cplex if it can be imported, otherwise the free solver
@@ -117,7 +117,7 @@ class ParCons(RankAggAlgorithm, PairwiseBasedAlgorithm):
                         exact_alg = ExactAlgorithmPulp()
                     cons_ext = exact_alg.compute_consensus_rankings(
                         sub_problem, scoring_scheme, True).consensus_rankings[0]
-                    res.extend(cons_ext)
+                    res.extend(ParCons.buckets_with_elements_of_dataset(cons_ext, set_current_elements))
 
         hash_information = {
             ConsensusFeature.ASSOCIATED_ALGORITHM: self.get_full_name(),
